@@ -133,10 +133,6 @@ package beacon
 //@   requires c.rounds != nil
 //@   modifies mapof(c.rounds), mapof(c.rcvd), heap("E:Str")
 
-//@ extern (*partialCache).Append(c, p) (err)
-//@   trusted verified on its own under C12 (cache bound); here only its frame matters: it touches the cache maps and the round caches' signature maps
-//@   modifies mapof(c.rounds), mapof(c.rcvd), heap("E:Str"), heap("MD:map[int][]byte"), heap("MV:map[int][]byte"), heap("ML:map[int][]byte")
-
 //@ extern toPeers(nodes) (peers)
 //@   trusted copies identities into a fresh slice
 //@   modifies nothing
@@ -171,3 +167,76 @@ package beacon
 //@   call Recover#0: assert [C03:recovery-uses-live-polynomial-and-round-digest] arg1 == c.crypto.pub && arg2 == crypto.digestOf(c.crypto.Scheme, roundCache.round, roundCache.prev)
 //@   call tryAppend#0: assert [C01:aggregated-beacon-verified-under-group-key-for-its-round] arg3 != nil && crypto.validSig(crypto.commitOf(c.crypto.pub), crypto.digestOf(c.crypto.Scheme, arg3.Round, arg3.PreviousSig), arg3.Signature)
 //@   call tryAppend#0: assert [C01:aggregated-beacon-is-built-from-the-round-cache] arg3.Round == roundCache.round && arg3.PreviousSig == roundCache.prev
+
+// ---- C12: bounded partial cache, eviction confined to the flooding signer ---------------
+
+//@ pred cacheBounded(c) := forall i int :: has(c.rcvd, i) ==> len(c.rcvd[i]) <= MaxPartialsPerNode
+//@ pred cacheShape(c) := c.rounds != nil && c.rcvd != nil && c.scheme != nil && (forall r string :: has(c.rounds, r) ==> c.rounds[r] != nil && c.rounds[r].sigs != nil && c.rounds[r].scheme != nil)
+
+//@ func newRoundCache(id, p, s) (rc)
+//@   props C12
+//@   modifies nothing
+//@   ensures rc != nil && rc.sigs != nil && len(rc.sigs) == 0 && rc.scheme == s && rc.id == id
+
+//@ func (*roundCache).flushIndex(r, idx)
+//@   props C12
+//@   modifies mapof(r.sigs)
+//@   ensures [C12:flushIndex-removes-only-that-signer] !has(r.sigs, idx) && (forall j int :: j != idx ==> has(r.sigs, j) == old(has(r.sigs, j)))
+
+//@ func (*roundCache).append(r, p) (added)
+//@   props C03 C12
+//@   requires r.sigs != nil && r.scheme != nil
+//@   modifies mapof(r.sigs)
+//@   ensures [C03:duplicate-index-never-counts-twice] (forall j int :: old(has(r.sigs, j)) ==> has(r.sigs, j)) && len(r.sigs) <= old(len(r.sigs)) + 1 && (!added ==> len(r.sigs) == old(len(r.sigs)))
+//@   ensures [C03:append-adds-only-the-signers-own-slot] forall j int :: p != nil && j != crypto.idxOf(p.PartialSig) ==> has(r.sigs, j) == old(has(r.sigs, j))
+
+//@ func (*partialCache).getCache(c, id, p) (rc, err)
+//@   props C12
+//@   requires cacheShape(c) && p != nil
+//@   modifies mapof(c.rounds)
+//@   ensures [C12:getCache-keeps-cache-shape] cacheShape(c)
+//@   ensures [C12:getCache-returns-registered-round] err == nil ==> rc != nil && has(c.rounds, id) && c.rounds[id] == rc
+//@   ensures [C12:getCache-keeps-existing-rounds] forall r string :: old(has(c.rounds, r)) ==> has(c.rounds, r) && c.rounds[r] == old(c.rounds[r])
+
+//@ func (*partialCache).evictOldest(c, idx)
+//@   props C12
+//@   requires cacheShape(c) && has(c.rcvd, idx) && len(c.rcvd[idx]) >= 1
+//@   modifies mapof(c.rounds), mapof(c.rcvd), heap("MD:map[int][]byte"), heap("MV:map[int][]byte"), heap("ML:map[int][]byte")
+//@   ensures [C12:evict-removes-exactly-one-id-of-that-signer] has(c.rcvd, idx) && len(c.rcvd[idx]) == old(len(c.rcvd[idx])) - 1
+//@   ensures [C12:evict-leaves-other-signers-counters] forall i int :: i != idx ==> has(c.rcvd, i) == old(has(c.rcvd, i)) && c.rcvd[i] == old(c.rcvd[i])
+//@   ensures [C12:evict-keeps-cache-shape] cacheShape(c)
+//@   ensures [C12:eviction-keeps-rounds-that-hold-other-signers-partials] forall r string, j int :: j != idx && old(has(c.rounds, r)) && old(has(c.rounds[r].sigs, j)) ==> has(c.rounds, r)
+//@   ensures [C12:eviction-keeps-round-objects] forall r string :: has(c.rounds, r) ==> old(has(c.rounds, r)) && c.rounds[r] == old(c.rounds[r])
+//@   ensures [C12:eviction-keeps-other-signers-partials] forall x *roundCache, j int :: j != idx ==> has(x.sigs, j) == old(has(x.sigs, j))
+
+//@ func (*partialCache).Append(c, p) (err)
+//@   props C12
+//@   requires [C12] cacheShape(c) && cacheBounded(c) && p != nil
+//@   modifies mapof(c.rounds), mapof(c.rcvd), heap("E:Str"), heap("MD:map[int][]byte"), heap("MV:map[int][]byte"), heap("ML:map[int][]byte")
+//@   ensures [C12:append-keeps-cache-shape] cacheShape(c)
+//@   ensures [C12:append-keeps-per-signer-bound] cacheBounded(c)
+//@   ensures [C12:flood-never-evicts-other-signers-partials] forall r string, j int :: j != crypto.idxOf(p.PartialSig) && old(has(c.rounds, r)) && old(has(c.rounds[r].sigs, j)) ==> has(c.rounds, r) && c.rounds[r] == old(c.rounds[r]) && has(c.rounds[r].sigs, j)
+
+// ---- C12: storing a beacon never waits on a stream consumer ------------------------------
+
+//@ func (*callbackStore).Put(c, ctx, b) (err)
+//@   props C12
+//@   flags nonblocking lockcheck
+//@   requires b != nil
+
+//@ func (*callbackStore).AddCallback(c, id, fn)
+//@   props C12
+//@   flags lockcheck
+//@   requires c.newJob != nil && c.callbacks != nil
+//@   ensures [C12:replaced-callback-worker-is-released] old(has(c.newJob, id)) ==> closed(old(c.newJob[id]))
+//@   ensures [C12:one-queue-per-callback-id] has(c.newJob, id) && has(c.callbacks, id) && c.newJob[id] != nil && cap(c.newJob[id]) == CallbackWorkerQueue
+//@   ensures [C12:add-leaves-other-callbacks] forall k string :: k != id ==> has(c.newJob, k) == old(has(c.newJob, k)) && c.newJob[k] == old(c.newJob[k]) && has(c.callbacks, k) == old(has(c.callbacks, k))
+
+//@ func (*callbackStore).RemoveCallback(c, id)
+//@   props C12
+//@   flags lockcheck
+//@   ensures [C12:removed-callback-worker-is-released] old(has(c.newJob, id)) ==> closed(old(c.newJob[id]))
+//@   ensures [C12:removed-callback-is-gone] !has(c.newJob, id) && !has(c.callbacks, id)
+//@   ensures [C12:remove-leaves-other-callbacks] forall k string :: k != id ==> has(c.newJob, k) == old(has(c.newJob, k)) && c.newJob[k] == old(c.newJob[k]) && has(c.callbacks, k) == old(has(c.callbacks, k))
+
+//@ lemma [C12] callback-queue-is-bounded: CallbackWorkerQueue > 0 && MaxPartialsPerNode > 0
